@@ -24,19 +24,47 @@ impl crate::fold::Fold<TextRange> for RandomLocator<'_> {
     }
 }
 
+/// The pieces of an f-string share the range of the literal they come from. A literal's
+/// range is therefore converted once, when its first piece is met (the cursor has not passed
+/// the literal's start yet), and reused for its other pieces. `whole` is the enclosing joined
+/// string, already located by the caller.
+struct JoinedStrPieces {
+    whole: (TextRange, SourceRange),
+    last: Option<(TextRange, SourceRange)>,
+}
+
+impl JoinedStrPieces {
+    fn locate(&mut self, locator: &mut LinearLocator<'_>, range: TextRange) -> SourceRange {
+        if range == self.whole.0 {
+            return self.whole.1;
+        }
+        if let Some((last_range, last_location)) = self.last {
+            if last_range == range {
+                return last_location;
+            }
+        }
+        let start = locator.locate_only(range.start());
+        let end = locator.locate_only(range.end());
+        let location = SourceRange::new(start, end);
+        self.last = Some((range, location));
+        location
+    }
+}
+
 fn linear_locate_expr_joined_str(
     locator: &mut LinearLocator<'_>,
     node: crate::ExprJoinedStr<TextRange>,
-    location: SourceRange,
+    pieces: &mut JoinedStrPieces,
 ) -> Result<crate::ExprJoinedStr<SourceRange>, Infallible> {
-    let crate::ExprJoinedStr { range: _, values } = node;
+    let crate::ExprJoinedStr { range, values } = node;
+    let location = pieces.locate(locator, range);
 
     let mut located_values = Vec::with_capacity(values.len());
     for value in values.into_iter() {
         let located = match value {
             crate::Expr::Constant(constant) => {
                 let node = crate::ExprConstant {
-                    range: location,
+                    range: pieces.locate(locator, constant.range),
                     value: constant.value,
                     kind: constant.kind,
                 };
@@ -44,7 +72,7 @@ fn linear_locate_expr_joined_str(
             }
             crate::Expr::FormattedValue(formatted) => {
                 let node = crate::ExprFormattedValue {
-                    range: location,
+                    range: pieces.locate(locator, formatted.range),
                     value: locator.fold(formatted.value)?,
                     conversion: formatted.conversion,
                     format_spec: formatted
@@ -52,7 +80,7 @@ fn linear_locate_expr_joined_str(
                         .map(|spec| match *spec {
                             crate::Expr::JoinedStr(joined_str) => {
                                 let node =
-                                    linear_locate_expr_joined_str(locator, joined_str, location)?;
+                                    linear_locate_expr_joined_str(locator, joined_str, pieces)?;
                                 Ok(crate::Expr::JoinedStr(node))
                             }
                             expr => locator.fold(expr),
@@ -250,8 +278,11 @@ impl crate::fold::Fold<TextRange> for LinearLocator<'_> {
     ) -> Result<crate::ExprJoinedStr<Self::TargetU>, Self::Error> {
         let start = self.locate(node.range.start());
         let end = self.locate_only(node.range.end());
-        let location = SourceRange::new(start, end);
-        linear_locate_expr_joined_str(self, node, location)
+        let mut pieces = JoinedStrPieces {
+            whole: (node.range, SourceRange::new(start, end)),
+            last: None,
+        };
+        linear_locate_expr_joined_str(self, node, &mut pieces)
     }
 
     fn fold_expr_call(
